@@ -6,6 +6,7 @@ PROPS = {"C18": dict(
         "Zrnt.Proofs.C18.poll_sites_propagate",
         "Zrnt.Proofs.C18.errors_propagate",
         "Zrnt.Proofs.C18.engine_verdicts_map_to_errors",
+        "Zrnt.Proofs.C18.head_polls_kept",
         "Zrnt.Proofs.C18.fault_implies_error",
         "Zrnt.Proofs.C18.no_fault_same_result",
         "Zrnt.Proofs.C18.no_fault_same_result_total",
